@@ -1327,7 +1327,7 @@ def s_isinstance(x: Any, t: Any) -> bool:
 def s_min(*args: Any, **kw: Any) -> Any:
     xs = list(args[0]) if len(args) == 1 else list(args)
     if not any(is_sym(x) for x in xs):
-        return min(*args, **kw)
+        return min(xs, **kw)
     if kw:
         raise Unsupported("min with key on symbolic values")
     r = xs[0]
@@ -1340,7 +1340,7 @@ def s_min(*args: Any, **kw: Any) -> Any:
 def s_max(*args: Any, **kw: Any) -> Any:
     xs = list(args[0]) if len(args) == 1 else list(args)
     if not any(is_sym(x) for x in xs):
-        return max(*args, **kw)
+        return max(xs, **kw)
     if kw:
         raise Unsupported("max with key on symbolic values")
     r = xs[0]
